@@ -45,6 +45,19 @@ func renderToks(toks []string, variant uint64) string {
 		if ok {
 			w = sp[(v>>3)%uint64(len(sp))]
 		}
+		if t == "attr" {
+			// at most one to-be-closed variable per local statement (a context condition of Lua 5.4): only the first
+			// attribute of a chunk may be spelled <close>
+			first := true
+			for _, u := range toks[:i] {
+				if u == "attr" {
+					first = false
+				}
+			}
+			if !first {
+				w = "<const>"
+			}
+		}
 		if t == "unop" && i == 0 {
 			w = "not" // a first line starting with '#' is skipped as a shebang line: not a unary operator there
 		}
@@ -73,7 +86,7 @@ func checkC03(c *Ctx) {
 		"token spellings and separators are a fixed table in the harness; label names are made unique",
 		"parser.BeginAnalyze is the observation point the property itself names as equivalent; a sample is cross-checked against publishDiagnostics",
 	}
-	n := 6
+	n := 7
 	if c.Thorough() {
 		n = 8
 	}
